@@ -1,3 +1,131 @@
 import Srctools.Wire
-/-! stub driver (echo) — replaced when the property's model exists. -/
-def main : IO Unit := Wire.main fun j => pure j
+import Srctools.Model.C18
+import Srctools.Gen.Fsys
+/-! Driver for the path model and the directory-filesystem model (C18).
+requests (strings are code point arrays):
+  {"op":"path","cwd":s,"s":[s…]}            → [{"norm":s,"abs":s,"comps":[s…]}…]
+  {"op":"join","pairs":[[a,b]…]}            → [s…]
+  {"op":"relpath","cwd":s,"pairs":[[path,start]…]} → [s|null…]
+  {"op":"unify","fold":[[cp,[cp…]]…],"s":[s…]} → [s|null…]
+  {"op":"kind"}                              → "stringPrefix" | "sepTerminated"   (from Gen.Fsys)
+  {"op":"fs","kind":null|"stringPrefix"|"sepTerminated","cwd":s,"tree":[[[comp…],id]…],
+   "members":[{"root":s,"constrain":b,"pfx":s}…],"chain":b,"fold":[…],"paths":[s…]}
+      chain=false (first member only, prefix ignored) →
+        {"root":s,"obs":[{"resolve":s|err,"exists":b|err,"get":s|err,"open":id|err,"getopen":id|err,"walk":[[s,id]…]|err}…]}
+      chain=true →
+        {"roots":[s…],"obs":[{"get":[full,inner]|err,"open":id|err,"walkrep":[[s,id|err]…]|err,"walk":[[s,id|err]…]|err}…]}
+  err = "escape" | "notfound"
+-/
+open Lean Path C18
+
+def strArr (j : Json) : Except String (List Str) := do
+  let a ← j.getArr?
+  a.toList.mapM Wire.strOfCodes
+
+def foldOf (j : Json) : Except String (Char → List Char) := do
+  let a ← j.getArr?
+  let pairs ← a.toList.mapM fun p => do
+    let q ← p.getArr?
+    let k ← (q[0]!).getNat?
+    let v ← Wire.strOfCodes (q[1]!)
+    pure (Char.ofNat k, v)
+  pure fun c => match pairs.find? (·.1 == c) with
+    | some p => p.2
+    | none => [c]
+
+def errJ : Err → Json
+  | .escape => Json.str "escape"
+  | .notFound => Json.str "notfound"
+
+def exJ {α} (f : α → Json) : Except Err α → Json
+  | .ok a => f a
+  | .error e => errJ e
+
+def sJ (s : Str) : Json := Wire.codesOfStr s
+def nJ (n : Nat) : Json := Json.num (JsonNumber.fromNat n)
+def lJ {α} (f : α → Json) (l : List α) : Json := Json.arr (l.map f).toArray
+
+def kindOf (j : Json) : Except String ContainKind :=
+  match j with
+  | Json.null => pure Gen.Fsys.containKind
+  | Json.str "stringPrefix" => pure .stringPrefix
+  | Json.str "sepTerminated" => pure .sepTerminated
+  | _ => throw "kind?"
+
+def treeOf (j : Json) : Except String Tree := do
+  let a ← j.getArr?
+  a.toList.mapM fun e => do
+    let q ← e.getArr?
+    let cs ← strArr (q[0]!)
+    let i ← (q[1]!).getNat?
+    pure ⟨cs, i⟩
+
+def membersOf (j : Json) (cwd : Str) : Except String (List Member) := do
+  let a ← j.getArr?
+  a.toList.mapM fun m => do
+    let root ← Wire.strOfCodes (← m.getObjVal? "root")
+    let c ← m.getObjValAs? Bool "constrain"
+    let p ← Wire.strOfCodes (← m.getObjVal? "pfx")
+    pure ⟨mkRaw cwd root c, p⟩
+
+def handle (j : Json) : Except String Json := do
+  let op ← j.getObjValAs? String "op"
+  match op with
+  | "path" =>
+    let cwd ← Wire.strOfCodes (← j.getObjVal? "cwd")
+    let ss ← strArr (← j.getObjVal? "s")
+    pure (lJ (fun s => Json.mkObj [("norm", sJ (normpath s)), ("abs", sJ (abspath cwd s)),
+                                    ("comps", lJ sJ (comps s))]) ss)
+  | "join" =>
+    let a ← (← j.getObjVal? "pairs").getArr?
+    let rs ← a.toList.mapM fun p => do
+      let q ← strArr p
+      pure (sJ (join2 (q[0]!) (q[1]!)))
+    pure (Json.arr rs.toArray)
+  | "relpath" =>
+    let cwd ← Wire.strOfCodes (← j.getObjVal? "cwd")
+    let a ← (← j.getObjVal? "pairs").getArr?
+    let rs ← a.toList.mapM fun p => do
+      let q ← strArr p
+      pure (match relpath cwd (q[0]!) (q[1]!) with | some r => sJ r | none => Json.null)
+    pure (Json.arr rs.toArray)
+  | "unify" =>
+    let f ← foldOf (← j.getObjVal? "fold")
+    let ss ← strArr (← j.getObjVal? "s")
+    pure (lJ (fun s => match unifyPath f s with | some r => sJ r | none => Json.null) ss)
+  | "kind" =>
+    pure (Json.str (match Gen.Fsys.containKind with | .stringPrefix => "stringPrefix" | .sepTerminated => "sepTerminated"))
+  | "fs" =>
+    let k ← kindOf ((j.getObjVal? "kind").toOption.getD Json.null)
+    let cwd ← Wire.strOfCodes (← j.getObjVal? "cwd")
+    let t ← treeOf (← j.getObjVal? "tree")
+    let ms ← membersOf (← j.getObjVal? "members") cwd
+    let chain ← j.getObjValAs? Bool "chain"
+    let f ← foldOf (← j.getObjVal? "fold")
+    let ps ← strArr (← j.getObjVal? "paths")
+    let entJ (e : Ent) : Json := nJ e.id
+    if chain then
+      let wJ (l : List (Str × Except Err Ent)) : Json :=
+        lJ (fun (x : Str × Except Err Ent) => Json.arr #[sJ x.1, exJ entJ x.2]) l
+      let obs := ps.map fun p => Json.mkObj [
+        ("get", exJ (fun (x : Member × Str × Str) => Json.arr #[sJ x.2.1, sJ x.2.2]) (chainGet k cwd t p ms)),
+        ("open", exJ entJ (chainOpen k cwd t ms p)),
+        ("walkrep", exJ wJ (chainWalkRepeat k cwd t p ms)),
+        ("walk", exJ wJ (chainWalk k f cwd t p ms))]
+      pure (Json.mkObj [("roots", lJ (fun (m : Member) => sJ m.fs.root) ms), ("obs", Json.arr obs.toArray)])
+    else
+      match ms with
+      | [] => throw "no member"
+      | m :: _ =>
+        let fs := m.fs
+        let obs := ps.map fun p => Json.mkObj [
+          ("resolve", exJ sJ (resolve k cwd fs p)),
+          ("exists", exJ Json.bool (existsIn k cwd fs t p)),
+          ("get", exJ sJ (getFile k cwd fs t p)),
+          ("open", exJ entJ (openName k cwd fs t p)),
+          ("getopen", exJ entJ (getOpen k cwd fs t p)),
+          ("walk", exJ (lJ fun (x : Str × Ent) => Json.arr #[sJ x.1, entJ x.2]) (walk k cwd fs t p))]
+        pure (Json.mkObj [("root", sJ fs.root), ("obs", Json.arr obs.toArray)])
+  | _ => throw s!"unknown op {op}"
+
+def main : IO Unit := Wire.main handle
